@@ -71,6 +71,11 @@ CHECKS = {
             "Static rules deciding for every start/shutdown history and fault subset: start effects only when not "
             "started, settrace only when tracing is enabled, restore passes exactly the values saved before install "
             "(sys to sys, threading to threading), a failing shutdown step never skips a later step.", "4/C14"),
+    "C15": ("exactly-one-of path rule on the pending stack, decision table of the completion match, unused-parameter/identity dataflow rule, origin of the captured result, ownership rule on the per-thread store",
+            "Static decision that a popped pending context is processed xor pushed back and registered only after the pending ones were "
+            "examined, of the completion table, that the captured result is the completing event's arg and sent once, and that the pending "
+            "store is a per-instance threading.local (not shared, not inheritable). The invocation-identity clause is decided too and is a "
+            "known finding (frame argument unused).", "4/C15"),
     "C16": ("role binding by origin expansion at the abstract logger call and in its implementations, template-pipeline shape rules, snapshot/log agreement, exactly-once rule",
             "Static decision that message, tracepoint id and context id reach the logger each in its own place (call sites bound "
             "through the abstract signature; implementations' labels paired with their parameters), that the message is "
